@@ -243,7 +243,20 @@ function compare(a, b, opts) {
   if (a.term === 'overflow' || a.term === 'timeout' || b.term === 'overflow' || b.term === 'timeout') { res.inconclusive = true; }
   const sa = segments(a.trace), sb = segments(b.trace);
   res.segs = sa.segs.size;
-  const eqArr = (x, y) => x.length === y.length && x.every((v, i) => v === y[i]);
+  // powTol: the language leaves finite results of ** implementation-approximated, so for programs that use it
+  // numbers inside events may differ by a few ulps (relative 2e-15); everything else stays exact.
+  const numRe = /-?\d+(?:\.\d+)?(?:e[+-]?\d+)?/g;
+  const tolEq = (v, w) => {
+    if (v === w) return true;
+    if (!opts || !opts.powTol) return false;
+    const sv = v.replace(numRe, '#'), sw = w.replace(numRe, '#');
+    if (sv !== sw) return false;
+    const nv = v.match(numRe) || [], nw = w.match(numRe) || [];
+    if (nv.length !== nw.length) return false;
+    for (let i = 0; i < nv.length; i++) { const a = +nv[i], b = +nw[i]; if (a !== b && !(Math.abs(a - b) <= 2e-15 * Math.max(Math.abs(a), Math.abs(b)))) return false; }
+    return true;
+  };
+  const eqArr = (x, y) => x.length === y.length && x.every((v, i) => tolEq(v, y[i]));
   if (!eqArr(sa.pre, sb.pre)) diffs.push({ seg: '', a: sa.pre.slice(0, 60), b: sb.pre.slice(0, 60) });
   for (const [id, ea] of sa.segs) {
     const eb = sb.segs.get(id);
